@@ -217,12 +217,16 @@ theorem C39_project_partial (cfg : Cfg) (ver : Ver) (e : Endian) (tr tw : Ty) (v
       | absent => cases xw <;> simp [wfVal] at hwf
     | prim _ => cases xr <;> simp [evolves] at hev
     | str => cases xr <;> simp [evolves] at hev
-    | enum _ _ => cases xr <;> simp [evolves] at hev
+    | enum _ _ _ => cases xr <;> simp [evolves] at hev
+    | wstr => cases xr <;> simp [evolves] at hev
+    | union _ _ => cases xr <;> simp [evolves] at hev
     | seq _ => cases xr <;> simp [evolves] at hev
     | arr _ _ => cases xr <;> simp [evolves] at hev
   | prim _ => simp [evolves] at hev
   | str => simp [evolves] at hev
-  | enum _ _ => simp [evolves] at hev
+  | enum _ _ _ => simp [evolves] at hev
+  | wstr => simp [evolves] at hev
+  | union _ _ => simp [evolves] at hev
   | seq _ => simp [evolves] at hev
   | arr _ _ => simp [evolves] at hev
 
@@ -267,12 +271,16 @@ theorem C39_agrees (tr tw : Ty) (hev : evolves tr tw = true) : assignable (tyK t
                (infosOf_key msr) (infosOf_key msw))
       | prim _ => cases xr <;> simp [evolves] at hev
       | str => cases xr <;> simp [evolves] at hev
-      | enum _ _ => cases xr <;> simp [evolves] at hev
+      | enum _ _ _ => cases xr <;> simp [evolves] at hev
+      | wstr => cases xr <;> simp [evolves] at hev
+      | union _ _ => cases xr <;> simp [evolves] at hev
       | seq _ => cases xr <;> simp [evolves] at hev
       | arr _ _ => cases xr <;> simp [evolves] at hev
     | prim _ => simp [evolves] at hev
     | str => simp [evolves] at hev
-    | enum _ _ => simp [evolves] at hev
+    | enum _ _ _ => simp [evolves] at hev
+    | wstr => simp [evolves] at hev
+    | union _ _ => simp [evolves] at hev
     | seq _ => simp [evolves] at hev
     | arr _ _ => simp [evolves] at hev
 
@@ -315,8 +323,8 @@ theorem C39_nested_types_not_compared_counterexample :
         (.struct [.struct [.num 1, .str [0x61]], .num 5]))).val? = some (.struct [.struct [.num 1], .num 0]) ∧
     assignable (tyK (.struct .appendable (m 0 u8 .nil)))
                (tyK (.struct .appendable (m 0 (.struct .final (m 0 u8 .nil)) .nil))) = true ∧
-    assignable (tyK (.struct .appendable (m 0 (.enum .i8 [1]) .nil))) (tyK (.struct .appendable (m 0 u64 .nil))) = true ∧
-    (deTop Cfg.fixed (.struct .appendable (m 0 (.enum .i8 [1]) .nil))
+    assignable (tyK (.struct .appendable (m 0 (.enum .i8 [1] .final) .nil))) (tyK (.struct .appendable (m 0 u64 .nil))) = true ∧
+    (deTop Cfg.fixed (.struct .appendable (m 0 (.enum .i8 [1] .final) .nil))
       (serTop Cfg.fixed .v1 .le (.struct .appendable (m 0 u64 .nil)) (.struct [.num 7]))).val? = none := by
   decide +kernel
 
@@ -330,9 +338,9 @@ theorem C39_reader_extra_member_reads_padding_counterexample :
     (deTop Cfg.fixed (.struct .appendable (m 0 u8 (m 1 u8 .nil)))
       (serTop Cfg.fixed .v2 .le tyApp1 (.struct [.num 7]))).val? = some (.struct [.num 7, .num 0]) ∧
     project (.struct .appendable (m 0 u8 (m 1 u8 .nil))) tyApp1 (.struct [.num 7]) = .struct [.num 7, .absent] ∧
-    (deTop Cfg.fixed (.struct .appendable (m 0 u8 (m 1 (.enum .i8 [1, 2]) .nil)))
+    (deTop Cfg.fixed (.struct .appendable (m 0 u8 (m 1 (.enum .i8 [1, 2] .final) .nil)))
       (serTop Cfg.fixed .v2 .le tyApp1 (.struct [.num 7]))).val? = none ∧
-    assignable (tyK (.struct .appendable (m 0 u8 (m 1 (.enum .i8 [1, 2]) .nil)))) (tyK tyApp1) = true := by
+    assignable (tyK (.struct .appendable (m 0 u8 (m 1 (.enum .i8 [1, 2] .final) .nil)))) (tyK tyApp1) = true := by
   decide +kernel
 
 /-- **D48** (second half, still open): XCDR2, a nested appendable structure whose reader-side type has one more
